@@ -358,6 +358,8 @@ def _ibm(s: Stream, p, sc) -> dict:
         ibm["lifetime"] = s.randint(2, max(2, nsteps))
     if "temp" in sc["flow"].get("scalars", []) and s.chance(p["p_weight"]):
         ibm["weight"] = True
+    if s.chance(p.get("p_dose", 0.3)):
+        ibm["dose"] = True
     return ibm
 
 
